@@ -149,14 +149,17 @@ type Explorer struct {
 	Cfg Config
 	R   *lib.Report
 
-	nodes      []*node
-	byKey      map[string][]int
-	frontier   []int
-	frontier2  []int // nodes that already spent deviation budget
-	initBudget Budget
-	contDone   bool
-	Counters   map[string]int64
-	cur        *Ctx
+	nodes       []*node
+	byKey       map[string][]int
+	frontier    []int
+	frontier2   []int // nodes that already spent deviation budget
+	initBudget  Budget
+	contDone    bool
+	contSeen    map[string]bool
+	contDoneIDs map[int]bool
+	contSpent   time.Duration
+	Counters    map[string]int64
+	cur         *Ctx
 
 	Transitions int64
 	ImplCalls   int64
@@ -659,7 +662,11 @@ func (ex *Explorer) expand(n *node) {
 		if a.OneShot {
 			nb.Used |= 1 << ex.actionIndex[a.Name]
 		}
+		before := len(ex.nodes)
 		try(label, Fault{}, nb, a.Free && a.Name != "release")
+		if !a.Free && ex.Cfg.DefaultContinuations && len(ex.nodes) > before {
+			ex.continueFrom(len(ex.nodes) - 1)
+		}
 	}
 	if es.crash {
 		nb := n.budget
@@ -854,18 +861,41 @@ func (ex *Explorer) Script(items []string, verbose bool) []string {
 // defaultContinuations: see Config.DefaultContinuations. The nodes in frontier2 at this moment are exactly the states
 // right after a deviation (user action or fault) injected into the undisturbed graph.
 func (ex *Explorer) defaultContinuations() {
-	w := ex.W
-	start := time.VerifRealNow()
 	points := append([]int(nil), ex.frontier2...)
-	done := 0
-	seen := map[string]bool{}
 	for _, id := range points {
-		if ex.Cfg.ContinuationBudget > 0 && time.VerifRealNow().Sub(start) > ex.Cfg.ContinuationBudget {
+		if !ex.continueFrom(id) {
 			break
 		}
-		if !ex.Cfg.Deadline.IsZero() && time.VerifRealNow().After(ex.Cfg.Deadline) {
-			break
+	}
+	ex.Counters["deviation points at the end of the undisturbed search"] = int64(len(points))
+}
+
+// continueFrom runs the default-schedule continuation of one deviation point (see Config.DefaultContinuations); it
+// returns false when the continuation budget or the deadline is used up. User deviations are continued as soon as
+// they are injected (so that a cut of the undisturbed search does not leave them without any complete run), fault
+// points when the undisturbed search is complete.
+func (ex *Explorer) continueFrom(id int) bool {
+	w := ex.W
+	if ex.contSeen == nil {
+		ex.contSeen = map[string]bool{}
+	}
+	seen := ex.contSeen
+	if ex.contDoneIDs == nil {
+		ex.contDoneIDs = map[int]bool{}
+	}
+	if ex.contDoneIDs[id] {
+		return true
+	}
+	{
+		start := time.VerifRealNow()
+		if ex.Cfg.ContinuationBudget > 0 && ex.contSpent > ex.Cfg.ContinuationBudget {
+			return false
 		}
+		if !ex.Cfg.Deadline.IsZero() && start.After(ex.Cfg.Deadline) {
+			return false
+		}
+		defer func() { ex.contSpent += time.VerifRealNow().Sub(start) }()
+		ex.contDoneIDs[id] = true
 		n := ex.nodes[id]
 		w.Restore(n.snap)
 		mon := n.mon.clone()
@@ -940,8 +970,7 @@ func (ex *Explorer) defaultContinuations() {
 				m.OnState(x, idle > AgeCap+1)
 			}
 		}
-		done++
+		ex.Counters["deviation points with a complete default continuation"]++
 	}
-	ex.Counters["deviation points with a complete default continuation"] = int64(done)
-	ex.Counters["deviation points at the end of the undisturbed search"] = int64(len(points))
+	return true
 }
